@@ -358,9 +358,9 @@ func (c *caseGen) dtoneCase() coqCase {
 	impl := "None"
 	var implJ any
 	withMocks(map[string]string{
-		"https://dvs-api.dtone.com/v1/lookup/mobile-number": `[{"id":1596,"name":"Claro","identified":true}]`,
+		"https://dvs-api.dtone.com/v1/lookup/mobile-number":                                             `[{"id":1596,"name":"Claro","identified":true}]`,
 		"https://dvs-api.dtone.com/v1/products?type=FIXED_VALUE_RECHARGE&operator_id=1596&per_page=100": string(mustJSON(products)),
-		"https://dvs-api.dtone.com/v1/async/transactions":                                              `{"id":2237512891,"external_id":"x","status":{"id":20000,"message":"CONFIRMED","class":{"id":2,"message":"CONFIRMED"}}}`,
+		"https://dvs-api.dtone.com/v1/async/transactions":                                               `{"id":2237512891,"external_id":"x","status":{"id":20000,"message":"CONFIRMED","class":{"id":2,"message":"CONFIRMED"}}}`,
 	}, func() {
 		svc := dtone.NewService(http.DefaultClient, nil, "key123", "sesame")
 		tr, err := svc.Transfer(urns.URN("tel:+593979000000"), urns.URN("tel:+593979123456"), amounts, (&flows.HTTPLogger{}).Log)
